@@ -119,7 +119,16 @@ fn simplified<F: Function + MathFunction>(c: &Case, want: f32, backend: &str, ba
     let r = match &c.mat { Some(m) => e.eval_with_transform_and_vars(&tape, x, y, z, m, &sv), None => e.eval_with_vars(&tape, x, y, z, &sv) };
     let Ok((_, Some(trace))) = r else { return false };
     let mut ws = Default::default();
-    let Ok(s2) = shape.simplify(trace, Default::default(), &mut ws) else { bad.push(format!("kind=simplify-error backend={backend}")); return false };
+    // storage recycled from an UNRELATED shape over the same variables met in the opposite order
+    let storage = {
+        let mut ctx2 = fidget_core::context::Context::new();
+        let mut vs2: Vec<Var> = tape.vars().iter().map(|(v, _)| v).collect();
+        vs2.sort_by_key(|v| std::cmp::Reverse(tape.vars().get(v)));
+        let mut acc = ctx2.constant(1.0);
+        for (k, v) in vs2.iter().enumerate() { let n = ctx2.var(*v); let m = ctx2.mul(n, (k + 2) as f32).unwrap(); acc = ctx2.sub(m, acc).unwrap(); }
+        Shape::<F>::new(&ctx2, acc).ok().and_then(|q| q.recycle()).unwrap_or_default()
+    };
+    let Ok(s2) = shape.simplify(trace, storage, &mut ws) else { bad.push(format!("kind=simplify-error backend={backend}")); return false };
     let t2 = s2.point_tape(Default::default());
     let mut pe = Shape::<F>::new_point_eval();
     let r = match &c.mat { Some(m) => pe.eval_with_transform_and_vars(&t2, c.p[0], c.p[1], c.p[2], m, &sv), None => pe.eval_with_vars(&t2, c.p[0], c.p[1], c.p[2], &sv) };
